@@ -38,7 +38,7 @@ def memory_states(ctx, c):
                  f"  N = {c['N']}\n  MaxCors = {{{', '.join(map(str, c['MaxCors']))}}}\n  MaxHist = {c['MaxHist']}\n"
                  f"  AlphaSel = \"{c['AlphaSel']}\"\n  MatrixPairs = {c['MatrixPairs']}\n"
                  + "".join(f"INVARIANT {i}\n" for i in INVS))
-    res = run_tlc(ctx, f"design:Memory {c}", "Memory", str(p), workers="auto", timeout=2400)
+    res = run_tlc(ctx, f"design:Memory {c}", "Memory", str(p), workers="auto", timeout=7200)
     if not res["ok"]:
         tail = "\n".join(l for l in res["out"].splitlines() if not l.startswith('"{'))[-2500:]
         raise Machinery(f"design run Memory failed - specification bug:\n{tail}")
